@@ -117,7 +117,10 @@ func (s *Stream) expandDataChannel() {
 	// Create new larger channel
 	newChan := make(chan map[string]any, newCap)
 
-	// Safely migrate data using write lock
+	// Keep the consumer out while rows are moved (see consumeMux), then migrate
+	// under the write lock so no producer can send meanwhile.
+	s.consumeMux.Lock()
+	defer s.consumeMux.Unlock()
 	s.dataChanMux.Lock()
 	oldChan := s.dataChan
 
